@@ -46,9 +46,12 @@ def lenw(fs: str) -> int:
     return p[0][1]
 
 
+_STRICT = [True]
+
+
 def expect_attrs(p, names):
     got = set(vars(p).keys())
-    if got != set(names):
+    if got != set(names) and (_STRICT[0] or not set(names) <= got):
         raise Unsupported("%s has attributes %s, expected %s" % (type(p).__name__, sorted(got), sorted(names)))
 
 
@@ -148,9 +151,25 @@ def overlay_packers():
     return sorted(out)
 
 
-def registry(ser=None):
+def registry(ser=None, strict=True):
+    """strict (translators): any unexpected attribute of a packer object aborts; lenient (harnesses, after the strict
+    attempt has been reported as broken): extra attributes are tolerated so that the oracles can still run"""
     ser = ser or make_serializer()
-    return {name: packer_fmt(p) for name, p in ser._packers.items()}
+    _STRICT[0] = strict
+    try:
+        return {name: packer_fmt(p) for name, p in ser._packers.items()}
+    finally:
+        _STRICT[0] = True
+
+
+def registry_for_harness(ctx, ser):
+    """the registry a check's harness works with: a packer of unexpected shape is reported (the model no longer stands for
+    the code) but does not stop the independent oracles"""
+    try:
+        return registry(ser)
+    except Unsupported as e:
+        ctx.broke("wire introspection: a packer no longer has the modelled shape", repr(e))
+        return registry(ser, strict=False)
 
 
 def class_fmts(cls, reg):
